@@ -61,7 +61,7 @@ func (x *Run) intrinsic(fr *Frame, st *State, fn *ssa.Function, args []Val, site
 			return single(st, unit), true
 		case "Called", "CalledWith", "CalledBefore", "CallCount", "CallCountWith", "CallCountWith2", "Sent", "SentOn", "ClosedEv", "Recovered", "CalledInIter", "CalledWithInIter",
 			"RetInt", "RetErr", "RetBool", "RetStr", "Ret", "NthArg", "NthRet", "NetDelta",
-			"IterArg", "IterRet", "HandlerName", "FreshInIter":
+			"IterArg", "IterRet", "HandlerName", "HandlerWrapper", "FreshInIter":
 			return single(st, x.freshVal(st, "trace", fn.Signature.Results().At(0).Type())), true
 		}
 	}
@@ -208,6 +208,28 @@ func (x *Run) intrinsic(fr *Frame, st *State, fn *ssa.Function, args []Val, site
 			return single(st, Val{T: "true", S: SBool}), true
 		}
 		return single(st, Val{T: "false", S: SBool}), true
+	case "HandlerWrapper":
+		// HandlerWrapper(f): the name of the function literal / function a
+		// function value was made from when it is not itself a bound method
+		// ("AsyncHandler$1" for msg.AsyncHandler(h)); "" for a method value
+		v := args[0]
+		if v.Inner != nil {
+			v = *v.Inner
+		}
+		if v.Clo == nil && v.T != "" {
+			vt := simpSelect(v.T)
+			for i := len(st.closures) - 1; i >= 0; i-- {
+				if st.closures[i].T == vt && st.closures[i].Clo != nil {
+					v = st.closures[i]
+					break
+				}
+			}
+		}
+		res := ""
+		if v.Clo != nil && !strings.HasSuffix(v.Clo.Fn.Name(), "$bound") {
+			res = v.Clo.Fn.Name()
+		}
+		return single(st, Val{T: x.d.lit(res), S: SStr, Ty: types.Typ[types.String]}), true
 	case "HandlerName":
 		// HandlerName(f): the name of the method a function value is bound to,
 		// looking through wrapper closures that capture exactly one function
